@@ -8,3 +8,6 @@ chk("C07", "differential runtime monitor: value.* operators on Int8..UInt64/UInt
 chk("C18", "runtime monitor of algebraic laws: relation matrices of ==, =~, hash, <, <=, >, >=, <=> computed by the real VM over a boundary value pool; offline checker for symmetry, reflexivity, hash law, trichotomy, agreement and transitivity (all triples); exact-rational labelling of the root cause",
     "Held (apart from listed known findings) on all ordered pairs and all triples of a pool of ~770 values of every numeric kind around 2^24/2^53/2^63/2^64/10^22 plus strings, chars, symbols, collections, ranges, pairs, dates; exploration.",
     "Trusted: math/big exact values used only to name the root cause of a law violation; collections nested one level only.")
+chk("C26", "recorded concurrent histories (client-boundary call/return stamps from one atomic counter) checked offline: porcupine v1.3.0 per-name register model + exact interval decision procedure, global injectivity; Go race detector on the same runs",
+    "Held on every recorded history (2..128 goroutines, fresh and global tables, contended first interning observed); exploration of schedules, not enumeration.",
+    "Trusted: porcupine; the Go scheduler's interleavings (GOMAXPROCS=16) plus microsecond sleeps are the only source of schedule diversity.")
